@@ -125,13 +125,15 @@ def r1(ctx):
     tie_ok = both == {"Allow", "Reject(AlreadySyncing)"}
     for r in (rl, rg):
         if r and r[0] == "Allow":
-            tie_ok = tie_ok and "Accept" in r[1] and r[2] == "0"
+            # the slot passes to the accepted session; a report refused while our dial was running (resync queued = 1 in these cells)
+            # still has to be followed up when that session ends: the takeover must not forget it
+            tie_ok = tie_ok and "Accept" in r[1] and r[2] == "1"
         if r and r[0].startswith("Reject"):
             tie_ok = tie_ok and "Connect" in r[1] and r[2] == "1"
     ctx.check(ok, "C11.R1", b.path, "transition-table",
               "(state, origin, cmp(me,node)) -> (outcome, state', resync'): %s; spec: Idle -> Allow + Running{Accept}; Running{Accept} -> Reject(AlreadySyncing), nothing changed" % _fmt(rows), b.sp)
     ctx.check(tie_ok, "C11.R1", b.path, "simultaneous-dial-tie-break-antisymmetric",
-              "while dialing: outcome(cmp(me,node)=Less) = %s, outcome(Greater) = %s; spec: exactly one of the two nodes of a simultaneous dial allows the request (the outcomes differ), the allowing side switches to Running{Accept}, the other keeps its dial" % (rl, rg), b.sp)
+              "while dialing: outcome(cmp(me,node)=Less) = %s, outcome(Greater) = %s; spec: exactly one of the two nodes of a simultaneous dial allows the request (the outcomes differ), the allowing side switches to Running{Accept} and keeps a queued resync, the other keeps its dial" % (rl, rg), b.sp)
     # ---- finish over {Idle, Running}
     b = f.body(PS + "finish")
     rows = {}
@@ -203,7 +205,7 @@ def r1(ctx):
     # no callee of finish writes the flag either (who-may-write below covers every body)
     SS = variant_names(f, "engine::state::SyncState")
     # ---- who may write state / resync_requested
-    allowed = {"state": {PS + "finish", PS + "set_sync_running"}, "resync_requested": {PS + "start_connect", PS + "set_sync_running"}}
+    allowed = {"state": {PS + "finish", PS + "set_sync_running"}, "resync_requested": {PS + "start_connect", PS + "set_sync_running", PS + "accept_request"}}
     # abort_connect (release of a declined dial): only Running{Connect} -> Idle, everything else untouched
     if PS + "abort_connect" in f.bodies:
         ab = f.body(PS + "abort_connect")
